@@ -17,6 +17,7 @@ import mpmath as mp
 import sympy as sp
 
 from pfv import terms as tm
+from pfv import smt
 from pfv import diff as D
 from pfv import sym
 from pfv import bslib as B
@@ -172,41 +173,78 @@ def terminal_ob(family, call, case, seed):
     """lim_{t->0+} V = payoff on the sign case `case` of x (and of m, x-m for the barrier products)."""
     name = 'C07/bs_%s_price/terminal[%s%s]' % (family, '' if call is None else ('call,' if call else 'put,'), case['name'])
 
+    def sub_cases(V0, hyps, symbols, depth=0):
+        """resolve data-dependent branches of the price term: if a condition is not decided by the sign case, both sides
+        that are satisfiable are verified separately (the payoff of the sign case is the same on both)"""
+        V = sym.simplify_under(V0, hyps)
+        try:
+            return [(hyps, V, _erfify(sym.to_sympy(V, symbols)))]
+        except sym.NotClosedForm as ex:
+            u = getattr(ex, 'term', None)
+            if depth >= 3 or u is None or u.op != 'ite':
+                raise
+            out = []
+            for br in (u.args[0], tm.not_(u.args[0])):
+                if smt.check_sat(hyps + [br], timeout_ms=10000).status != 'unsat':
+                    out += sub_cases(V0, hyps + [br], symbols, depth + 1)
+            return out
+
+    def model_point(hyps):
+        r_ = smt.check_sat(hyps + [tm.le(tm.const(0.05), v), tm.le(v, tm.const(1.0)), tm.le(tm.const(0.2), K), tm.le(K, tm.const(5.0)), tm.le(tm.const(-2.0), x), tm.le(x, tm.const(2.0))],
+                           timeout_ms=10000, want_model=True)
+        if r_.status != 'sat' or not r_.model:
+            return None
+        q = {}
+        for nm_ in ('x', 'v', 'K', 'm'):
+            if nm_ in r_.model and r_.model[nm_] is not None:
+                q[nm_] = mp.mpf(float(r_.model[nm_]))
+        return q if {'x', 'v', 'K'} <= set(q) else None
+
     def check():
         t0 = time.time()
-        hyps = OPEN + case['hyps']
-        V = c08.fterm(family, 'price', call, hyps)
-        V = sym.simplify_under(V, hyps)
+        hyps0 = OPEN + case['hyps']
+        V0 = c08.fterm(family, 'price', call, hyps0)
         r = sp.Symbol('r', positive=True)
         symbols = {'t': r ** 2, 'v': sp.Symbol('v', positive=True), 'K': sp.Symbol('K', positive=True)}
         symbols.update(case['symbols'])
-        e = _erfify(sym.to_sympy(V, symbols))
-        expected = case['payoff'](symbols)
         try:
-            lim = lim0(sp.expand(e), r)
-            ok = sp.simplify(lim - expected) == 0
-        except Indeterminate as ex:
-            return Verdict('unknown', 'extended-real continuity', time.time() - t0, 'indeterminate form: %s' % ex)
-        # numeric re-validation on the real term (evalc) at tiny t
-        pts = case['points']
-        worst = 0.0
-        for p in pts:
-            for tiny in ('1e-8', '1e-12'):
-                q = dict(p)
-                q['t'] = mp.mpf(tiny)
-                val = B.eval_at(V, q)
-                want = case['payoff_num'](q)
-                worst = max(worst, float(abs(val - want)))
-        sample = {'claim': 'lim_{t->0+} price = payoff', 'case': case['name'], 'sympy_limit': str(lim), 'expected': str(expected), 'max_abs_dev_at_tiny_t': worst}
-        if ok and worst < 1e-3:
-            return Verdict('proved', 'extended-real continuity (sympy arithmetic) + mpmath', time.time() - t0, '', sample=sample)
-        # refutation: the limit differs from the payoff
-        p = pts[0]
-        q = dict(p)
-        q['t'] = mp.mpf('1e-8')
-        wit = {'point': {k: float(val) for k, val in q.items()}, 'limit': str(lim), 'expected': str(expected)}
-        rp = oracle_replay(family, call)(wit['point'])
-        return Verdict('refuted', 'extended-real continuity (sympy arithmetic) + mpmath', time.time() - t0, 'terminal limit %s != payoff %s' % (lim, expected), witness=wit, sample=sample, replay=rp)
+            subs = sub_cases(V0, hyps0, symbols)
+        except sym.NotClosedForm as ex:
+            return Verdict('unknown', 'extended-real continuity', time.time() - t0, 'NotClosedForm: %s' % ex)
+        expected = case['payoff'](symbols)
+        sample = {'claim': 'lim_{t->0+} price = payoff', 'case': case['name'], 'expected': str(expected), 'sub_cases': len(subs)}
+        for (hyps, V, e) in subs:
+            split = len(hyps) > len(hyps0)
+            try:
+                lim = lim0(sp.expand(e), r)
+                ok = sp.simplify(lim - expected) == 0
+            except Indeterminate as ex:
+                return Verdict('unknown', 'extended-real continuity', time.time() - t0, 'indeterminate form: %s' % ex)
+            # numeric re-validation on the real term (evalc) at tiny t: the case's points, or (on a branch introduced by the code) a solver model of the branch
+            pts = case['points']
+            if split:
+                mpnt = model_point(hyps)
+                pts = [mpnt] if mpnt is not None else []
+            worst = 0.0
+            for p in pts:
+                for tiny in ('1e-8', '1e-12'):
+                    q = dict(p)
+                    q['t'] = mp.mpf(tiny)
+                    val = B.eval_at(V, q)
+                    want = case['payoff_num'](q)
+                    worst = max(worst, float(abs(val - want)))
+            sample.update(sympy_limit=str(lim), max_abs_dev_at_tiny_t=worst)
+            if ok and worst < 1e-3:
+                continue
+            if not pts:
+                return Verdict('unknown', 'extended-real continuity', time.time() - t0, 'terminal limit %s != payoff %s on the branch %s, but no concrete point of that branch found' % (lim, expected, tm.show(hyps[-1])[:100]), sample=sample)
+            q = dict(pts[0])
+            q['t'] = mp.mpf('1e-8')
+            wit = {'point': {k: float(val) for k, val in q.items()}, 'limit': str(lim), 'expected': str(expected), 'branch': tm.show(hyps[-1])[:200] if split else ''}
+            rp = oracle_replay(family, call)(wit['point'])
+            return Verdict('refuted', 'extended-real continuity (sympy arithmetic) + mpmath', time.time() - t0,
+                           'terminal limit %s != payoff %s%s' % (lim, expected, (' on the branch ' + wit['branch']) if split else ''), witness=wit, sample=sample, replay=rp)
+        return Verdict('proved', 'extended-real continuity (sympy arithmetic) + mpmath', time.time() - t0, '', sample=sample)
     return Obligation(name, 'post', 'pfhedge.nn.functional.bs_%s_price' % family, check, [PROP],
                       clause='lim_{t->0+} bs_%s_price = payoff [%s]' % (family, case['name']))
 
